@@ -105,6 +105,48 @@ def ob_gate_symplectic(cls):
     return build
 
 
+def ob_gate_hbar_free(cls):
+    """the ladder-operator transformation of a gate is dimensionless: same blocks at hbar and at hbar = 1"""
+
+    def build(env):
+        import piquasso as pq
+
+        g = make_gate(cls, env)
+        Pb, Ab = blocks(g, env)
+        cfg1 = pq.Config(hbar=1.0, validate=False)
+        from piquasso.instructions import gates
+
+        P1 = st.exact(env, g._get_passive_block(env.connector, cfg1))
+        A1 = st.exact(env, g._get_active_block(env.connector, cfg1)) if isinstance(g, gates._ActiveLinearGate) else 0 * st.to_obj(P1)
+        return [Pb, Ab], [st.to_obj(P1), st.to_obj(A1)]
+
+    return build
+
+
+def ob_documented_active_matrices(env):
+    """S_(c) of Squeezing, QuadraticPhase, ControlledX, ControlledZ as printed in their docstrings"""
+    import piquasso as pq
+
+    r, phi, s = env.real("doc.r"), env.angle("doc.phi"), env.real("doc.s")
+    ch, sh_ = env.np.cosh(r), env.np.sinh(r)
+    e, ec = env.np.exp(1j * phi), env.np.exp(-1j * phi)
+    Z = 0 * s
+    one = 1 + Z
+    h = s / 2
+    ih = 1j * (s / 2)
+    lhs = [ladder(*blocks(pq.Squeezing(r=r, phi=phi), env)), ladder(*blocks(pq.QuadraticPhase(s=s), env)),
+           ladder(*blocks(pq.ControlledX(s=s), env)), ladder(*blocks(pq.ControlledZ(s=s), env)),
+           ladder(*blocks(pq.Phaseshifter(phi=phi), env))]
+    rhs = [
+        np.array([[ch, -e * sh_], [-ec * sh_, ch]], dtype=object),
+        np.array([[one + ih, ih], [-ih, one - ih]], dtype=object),
+        np.array([[one, -h, Z, h], [h, one, h, Z], [Z, h, one, -h], [h, Z, h, one]], dtype=object),
+        np.array([[one, ih, Z, ih], [ih, one, ih, Z], [Z, -ih, one, -ih], [-ih, Z, -ih, one]], dtype=object),
+        np.array([[e, Z], [Z, ec]], dtype=object),
+    ]
+    return lhs, rhs
+
+
 # ---------------------------------------------------------------------------------- 2
 def ob_fourier(env):
     import piquasso as pq
@@ -313,11 +355,13 @@ def obligations(tier):
         if cls.__name__ in MATRIX_GATES:
             continue
         obs[f"C07/symplectic/{cls.__name__}"] = ob_gate_symplectic(cls)
+        obs[f"C07/hbar-free-blocks/{cls.__name__}"] = ob_gate_hbar_free(cls)
     obs["C07/identity/Fourier=Phaseshifter(pi/2)"] = ob_fourier
     obs["C07/identity/Beamsplitter5050=Beamsplitter(pi/4,0)"] = ob_bs5050
     obs["C07/identity/MachZehnder-decomposition"] = ob_machzehnder
     obs["C07/identity/Squeezing2-decomposition-and-matrix"] = ob_squeezing2
     obs["C07/identity/documented-matrices"] = ob_documented_matrices
+    obs["C07/identity/documented-active-matrices"] = ob_documented_active_matrices
     dmax = 3 if tier == "quick" else 5
     for d in range(1, dmax + 1):
         for modes in ordered_tuples(d):
